@@ -209,3 +209,73 @@ Proof.
     injection Ea as <-; injection Eb as <-; vm_compute in Hm; try discriminate; reflexivity.
   - vm_compute. reflexivity.
 Qed.
+
+(* ------------------------------------------------------------------ *)
+(* the content of the entries ([remap_content], [remap_jar] of C07/Model.v) *)
+
+(* the entries that are READ AS CLASSES (zip_impls.rs) are exactly the entries that are RENAMED AS CLASSES (remap.rs):
+   both suffix literals, regenerated from the two source files, are `.class` *)
+Lemma zip_class_suffix_is_dot_class : zip_class_suffix = dot_class.
+Proof. reflexivity. Qed.
+Definition class_suffixes_agree_stmt : Prop := zip_class_suffix = class_suffix.
+Lemma class_suffixes_agree : class_suffixes_agree_stmt.
+Proof. unfold class_suffixes_agree_stmt. rewrite zip_class_suffix_is_dot_class, class_suffix_is_dot_class. reflexivity. Qed.
+
+(* what `remap` returns for one entry, entry by entry (input order), whenever it succeeds:
+   - an entry that is no class entry (its name does not end in `.class`) keeps its NAME and its CONTENT — a directory stays a
+     directory, any other entry keeps its bytes;
+   - a class entry that is not a directory is stored under map_class(name without `.class`) + `.class` and holds what
+     remap_class makes of its bytes *)
+Definition entry_out {C} (R : remapper) (rc : list N -> res C) (e : str * (bool * list N)) (o : str * content C) : Prop :=
+  ((forall base, fst e <> base ++ dot_class) ->
+     fst o = fst e /\ snd o = (if fst (snd e) then KDir else KOther (snd (snd e)))) /\
+  (forall base, fst e = base ++ dot_class ->
+     (exists n, map_class R base = Ok n /\ fst o = n ++ dot_class) /\
+     (if fst (snd e) then snd o = KDir else exists c, rc (snd (snd e)) = Ok c /\ snd o = KClass c)).
+
+Lemma entries_spec_out {C} R (rc : list N -> res C) : forall es l,
+  entries_spec R (remap_content rc) es = Ok l -> Forall2 (entry_out R rc) es l.
+Proof.
+  induction es as [|[name [d data]] es IH]; cbn [entries_spec]; intros l.
+  - intros [= <-]. constructor.
+  - destruct (entry_name R name) as [n'|] eqn:En; [|discriminate].
+    destruct (remap_content rc name (d, data)) as [b|] eqn:Ec; [|discriminate].
+    destruct (entries_spec R (remap_content rc) es) as [l'|]; [|discriminate]. intros [= <-].
+    constructor; [|apply IH; reflexivity]. unfold entry_out. cbn [fst snd].
+    unfold remap_content in Ec. cbn [fst snd] in Ec. rewrite zip_class_suffix_is_dot_class in Ec.
+    destruct (entry_name_spec R name) as [Hc Ho]. split.
+    + intros Hno. rewrite (Ho Hno) in En. injection En as <-. split; [reflexivity|].
+      destruct d; [injection Ec as <-; reflexivity|].
+      rewrite (proj2 (strip_suffix_none dot_class name) Hno) in Ec. injection Ec as <-. reflexivity.
+    + intros base Hb. rewrite (Hc base Hb) in En. split.
+      * destruct (map_class R base) as [n|]; [|discriminate]. injection En as <-. exists n. split; reflexivity.
+      * destruct d; [injection Ec as <-; reflexivity|].
+        rewrite (proj2 (strip_suffix_spec dot_class name base) Hb) in Ec. destruct (rc data) as [c|]; [|discriminate]. injection Ec as <-.
+        exists c. split; reflexivity.
+Qed.
+
+(* … and `remap` returns exactly that list when the input names are distinct and the remapper is injective on the class
+   entries; it fails as a whole when one name or one class fails *)
+Definition remap_jar_spec_stmt : Prop :=
+  forall (C : Type) (R : remapper) (rc : list N -> res C) (es : list (str * (bool * list N))) (l : list (str * content C)),
+    NoDup (map fst es) -> injective_on R (map fst es) ->
+    entries_spec R (remap_content rc) es = Ok l ->
+    remap_jar R rc es = Ok l /\ Forall2 (entry_out R rc) es l.
+Lemma remap_jar_spec : remap_jar_spec_stmt.
+Proof.
+  intros C R rc es l Hnd Hinj Hs. split; [exact (remap_entries_injective _ _ R (remap_content rc) es l Hnd Hinj Hs)|].
+  exact (entries_spec_out R rc es l Hs).
+Qed.
+
+(* non-vacuity: [ex_names] with contents — a class (bytes [1]), another class, a directory named like a class, a resource,
+   a multi-release class entry; `rc` doubles the bytes *)
+Definition ex_jar : list (str * (bool * list N)) :=
+  combine ex_names [(false, [1]); (false, [2]); (true, []); (false, [3; 4]); (false, [5])].
+Definition content_example_stmt : Prop :=
+  remap_jar ex_R (fun d => Ok (d ++ d)) ex_jar =
+    Ok (combine [ [120;47;89] ++ dot_class; [98;47;66] ++ dot_class; [111;100;100] ++ dot_class ++ [slash];
+                  [100;111;110;110;233;101;115;47;25991;20214;32;119964;46;116;120;116];
+                  mr_prefix ++ [97;47;65] ++ dot_class ]
+                [KClass [1; 1]; KClass [2; 2]; KDir; KOther [3; 4]; KClass [5; 5]]).
+Lemma content_example : content_example_stmt.
+Proof. vm_compute. reflexivity. Qed.
